@@ -5,6 +5,7 @@ A real RSocketServer or RSocketClient runs on the single-step loop with a harnes
   ('label', <atomic section that ran>)      and      ('eff', <what the library did in it>)
 together with the key sets of the stream table and the reassembly cache at every label boundary.  Coq replays the labels
 through model/Endpoint.v and compares effects and key sets (corr/EndpointCorr.v)."""
+from harness import internals, common
 import asyncio
 import functools
 from datetime import timedelta
@@ -37,7 +38,7 @@ class Recorder:
     # ---- logging primitives
     def snapshot(self):
         sc = self.ep._stream_control._streams
-        ck = self.ep._frame_fragment_cache._frames_by_stream_id
+        ck = internals.cache_keys(self.ep)
         return ('state', sorted(sc.keys()), sorted(ck.keys()))
 
     def table_snapshot(self):
@@ -47,14 +48,14 @@ class Recorder:
             kind = PKT.get(type(h).__name__, '?')
             ent = {'sid': sid, 'oid': getattr(h, '_verif_oid', None), 'kind': kind}
             if kind == 'KRRReq':
-                ent['pending'] = not h._future.done()
+                ent['pending'] = not internals.rr_future(h).done()
             elif kind == 'KRRResp':
                 ent['pending'] = not h.future.done()
             elif kind == 'KRSReq':
                 ent['has_sub'] = getattr(h, '_subscriber', None) is not None
             elif kind in ('KChanReq', 'KChanResp'):
                 ent['has_sub'] = h.remote_subscriber is not None
-                ent['recv'] = h._received_complete
+                ent['recv'] = internals.channel_direction_closed(h, 'recv')
                 ent['has_pub'] = h.subscriber is not None and h.subscriber.subscription is not None
             out.append(ent)
         return out
@@ -208,6 +209,14 @@ class Recorder:
         ep.stop_all_streams = stop_all_streams
 
     def _on_register(self, handler):
+        # called from inside the library's registration: a failure of the instrumentation itself must not turn into
+        # behaviour of the library (it would be judged by the oracles as if the library had done it)
+        try:
+            self._on_register_(handler)
+        except Exception as e:       # noqa
+            common.harness_error('instrumenting a %s failed: %r' % (type(handler).__name__, e))
+
+    def _on_register_(self, handler):
         oid = len(self.objs)
         self.objs.append(handler)
         handler._verif_oid = oid
@@ -217,16 +226,19 @@ class Recorder:
         self.pending_app = None
         self.app[oid] = app
         if name == 'RequestResponseRequester':
-            fut = handler._future
+            fut = internals.rr_future(handler)
             app['fut'] = fut
             _log_future(rec, fut, oid, requester=True)
-            # wrap the done-callback: setup() has not run yet (register_new_stream(...).setup())
-            orig_cb = handler._on_future_complete
+            # wrap the done-callback the handler installs in setup() (register_new_stream(...).setup() runs after this):
+            # found by what it is — a done-callback of the awaitable bound to the handler — not by its name
+            orig_setup = handler.setup
 
-            def cb(f):
-                rec.label('futcb', oid, ('cancel',))
-                return orig_cb(f)
-            handler._on_future_complete = cb
+            def setup(*a, **k):
+                r = orig_setup(*a, **k)
+                if not internals.wrap_done_callbacks(handler, fut, lambda f: rec.label('futcb', oid, ('cancel',))):
+                    common.harness_error('no done-callback of the request-response awaitable is bound to its handler')
+                return r
+            handler.setup = setup
         elif name == 'RequestResponseResponder':
             fut = handler.future
             app['fut'] = fut
